@@ -388,6 +388,8 @@ def verify_contract(con, contracts, tier="quick", externals=None):
                     else:
                         amap = dict(argmap)
                         amap.update({"exc_args": tuple(exc.args)})
+                        for an, av in getattr(exc, "attrs", {}).items():
+                            amap["exc_" + an] = av          # attributes a handler assigned to the exception (`exc.chip = chip`)
                         for p in names:
                             if p not in _rebound_params(con.node):
                                 amap[p + "_post"] = s_out.env.get(p)
